@@ -5,12 +5,19 @@ borrowed since entry.  Before every statement that contains a call of a
 may-panic function the extractor inserts `assert(unwind_ok)`: a documented
 panic may only start unwinding from a state that is still the (well-formed)
 entry state.  May-panic = contains a documented panic (`gecs_panic(..)`,
-`.gecs_expect(..)` after R-panic) or calls, by name, a function that does
-(transitive, over-approximate).
+`.gecs_expect(..)` after R-panic) or calls a function that does (transitive).
+
+Call resolution is syntactic and over-approximate:
+  self.f( / Self::f( / <Self as Tr>::f(   -> every extracted fn `f` of the same type (inherent and trait impls)
+  Type::f(  with Type an extracted type     -> every extracted fn `f` of that type
+  expr.f(   (unknown receiver)              -> every extracted fn named `f` of any type
+  X::f(     with X not an extracted type    -> unresolved (generic parameter or external: trait methods
+                                               implemented by generated code are assumed not to panic, A-gen)
+  f(        free call                       -> extracted free fn `f`
 """
 import re
 from . import rustscan as rs
-from .extract import strip_markers, ExtractError
+from .extract import strip_markers, find_blocks, find_fns, ExtractError
 
 PANIC_PRIMS = re.compile(r'\bgecs_panic\s*\(|\.gecs_expect\s*\(')
 
@@ -20,75 +27,162 @@ MUT_LINE = re.compile(r'\bself\s*\.\s*\w+\s*(?:\.\s*get_mut\s*\(\s*\)\s*)?\.\s*(
 ASSIGN_LINE = re.compile(r'\bself\s*\.\s*\w+\s*(?:[-+*/|&^]|<<|>>)?=(?!=)')
 MUTBORROW_LINE = re.compile(r'&\s*mut\s+self\s*\.\s*\w+')
 
+CALL = re.compile(r'(\w+)\s*(?:::\s*<[^()]*?>)?\s*\(')
+KEYWORDS = {'if', 'while', 'for', 'match', 'return', 'fn', 'loop', 'Some', 'Ok', 'Err', 'None', 'assert', 'proof',
+            'forall', 'exists', 'old', 'final', 'choose'}
 
-def maypanic_names(texts):
-    """texts: iterable of transformed source texts.  Returns the set of function names that may raise a documented panic."""
-    bodies = {}
+
+def type_of_key(block_key):
+    if block_key is None:
+        return None
+    k = block_key
+    if 'for' in k:
+        # normalised keys have no spaces: "Trait<..>forType<..>"
+        m = re.search(r'for([A-Za-z_]\w*)(?:<.*)?$', k)
+        if m:
+            return m.group(1)
+    return re.sub(r'<.*$', '', k)
+
+
+class FnInfo:
+    pass
+
+
+def collect_fns(texts):
+    infos = []
     for text in texts:
         msk = rs.mask(text)
-        for m in re.finditer(r'\bfn\s+(\w+)', msk):
-            i = m.end()
-            p = msk.find('(', i)
-            if p < 0:
+        blocks = find_blocks(text, msk)
+        for f in find_fns(text, msk, blocks):
+            if not f.has_body:
                 continue
-            try:
-                pc = rs.match_close(msk, p)
-            except rs.ScanError:
-                continue
-            b = rs.find_depth0(msk, pc + 1, '{;')
-            if b < 0 or msk[b] != '{':
-                continue
-            bc = rs.match_close(msk, b)
-            bodies.setdefault(m.group(1), []).append(msk[b:bc + 1])
-    may = set(n for n, bs in bodies.items() if any(PANIC_PRIMS.search(b) for b in bs))
+            fi = FnInfo()
+            fi.name = f.name
+            fi.type = type_of_key(f.block.key) if f.block is not None else None
+            fi.body = msk[f.body_open:f.body_close + 1]
+            infos.append(fi)
+    return infos
+
+
+def classify_sites(body_msk, cur_type, known_types):
+    """Yield (pos, end, kind, type_or_None, name) for every call site in a masked body."""
+    for m in CALL.finditer(body_msk):
+        name = m.group(1)
+        if name in KEYWORDS or name[0].isdigit():
+            continue
+        pre = body_msk[:m.start()].rstrip()
+        if pre.endswith('!'):
+            continue
+        if pre.endswith('.'):
+            pre2 = pre[:-1].rstrip()
+            if re.search(r'(?<![\w.])self$', pre2):
+                yield (m.start(), m.end(), 'type', cur_type, name)
+            else:
+                yield (m.start(), m.end(), 'any', None, name)
+        elif pre.endswith('::'):
+            pre2 = pre[:-2].rstrip()
+            if pre2.endswith('>'):
+                # qualified path <X as Trait<..>>::f  -- find the matching '<'
+                depth = 0
+                j = len(pre2) - 1
+                while j >= 0:
+                    if pre2[j] == '>' and (j == 0 or pre2[j - 1] != '-'):
+                        depth += 1
+                    elif pre2[j] == '<':
+                        depth -= 1
+                        if depth == 0:
+                            break
+                    j -= 1
+                q = pre2[j:]
+                mm = re.match(r'<\s*(\w+)', q)
+                # could also be Type::<..>:: ; treat the leading identifier before '<' if any
+                lead = re.search(r'(\w+)\s*(?:::)?\s*$', pre2[:j])
+                t = None
+                if mm and mm.group(1) == 'Self':
+                    t = cur_type
+                elif mm and mm.group(1) in known_types and q.startswith('<') and ' as ' in q:
+                    t = mm.group(1)
+                elif lead and lead.group(1) in known_types:
+                    t = lead.group(1)
+                elif lead and lead.group(1) == 'Self':
+                    t = cur_type
+                if t is not None:
+                    yield (m.start(), m.end(), 'type', t, name)
+            else:
+                mm = re.search(r'(\w+)$', pre2)
+                if not mm:
+                    continue
+                t = mm.group(1)
+                if t == 'Self':
+                    yield (m.start(), m.end(), 'type', cur_type, name)
+                elif t in known_types:
+                    yield (m.start(), m.end(), 'type', t, name)
+        else:
+            yield (m.start(), m.end(), 'free', None, name)
+
+
+def maypanic_set(texts):
+    infos = collect_fns(texts)
+    known_types = set(fi.type for fi in infos if fi.type)
+    may = set()
+    for fi in infos:
+        if PANIC_PRIMS.search(fi.body):
+            may.add((fi.type, fi.name))
+    names_any = lambda: set(n for (_, n) in may)
     changed = True
     while changed:
         changed = False
-        for n, bs in bodies.items():
-            if n in may:
+        anyn = names_any()
+        for fi in infos:
+            if (fi.type, fi.name) in may:
                 continue
-            for b in bs:
-                if any(re.search(r'(?:\.|::|\b)%s\s*(?:::<[^>]*>)?\s*\(' % re.escape(c), b) for c in may):
-                    may.add(n)
+            for (_, _, kind, t, name) in classify_sites(fi.body, fi.type, known_types):
+                hit = (kind == 'any' and name in anyn) or (kind == 'type' and (t, name) in may) or \
+                      (kind == 'free' and (None, name) in may)
+                if hit:
+                    may.add((fi.type, fi.name))
                     changed = True
                     break
-    return may
+    return may, known_types
 
 
-def make_unwind(cfg, may=None, type_key_prefix='Storage'):
+def make_unwind(cfg, may_known, type_prefix='Storage'):
+    may, known_types = may_known
+
     def unwind(text, msk, fns, fspec, log, in_dropped):
         edits = []
-        names = may if may is not None else maypanic_names([text])
-        if not names:
-            return edits
-        call_re = re.compile(r'(?:\.|::|\b)(%s)\s*(?:::<[^>]*>)?\s*\(' % '|'.join(sorted(re.escape(n) for n in names)))
+        anyn = set(n for (_, n) in may)
         for f in fns:
             if in_dropped(f.fn_pos) or not f.has_body or not f.mut_self:
                 continue
-            if f.block is None or not (f.block.key.startswith(type_key_prefix) or (' for ' + type_key_prefix) in strip_markers(text[f.block.header_start:f.block.open]) or ('for' + type_key_prefix) in f.block.key):
+            cur_type = type_of_key(f.block.key) if f.block is not None else None
+            if cur_type is None or not cur_type.startswith(type_prefix):
                 continue
             spec = fspec.fns.get(f.key)
             if spec is not None and spec.kind == 'externbody':
                 continue
             body_m = msk[f.body_open:f.body_close + 1]
-            sites = [m for m in call_re.finditer(body_m)] + [m for m in PANIC_PRIMS.finditer(body_m)]
-            # a function's own name inside its signature is not in the body, so no self-match
+            sites = []
+            for (s, e, kind, t, name) in classify_sites(body_m, cur_type, known_types):
+                hit = (kind == 'any' and name in anyn) or (kind == 'type' and (t, name) in may) or \
+                      (kind == 'free' and (None, name) in may)
+                if hit:
+                    sites.append((s, name))
+            for m in PANIC_PRIMS.finditer(body_m):
+                sites.append((m.start(), strip_markers(m.group(0)).strip('.( ')))
             if not sites:
                 continue
-            ind = '    '
+            sites.sort()
             edits.append((f.body_open + 1, 0, '\nlet ghost mut unwind_ok = true; // R-unwind\n'))
-            done_lines = set()
-            for m in sites:
-                pos = f.body_open + m.start()
-                s = stmt_start(text, msk, pos, f.body_open)
-                if s in done_lines:
+            done = set()
+            for (s, name) in sites:
+                pos = f.body_open + s
+                st = stmt_start(text, msk, pos, f.body_open)
+                if st in done:
                     continue
-                done_lines.add(s)
-                what = strip_markers(text[f.body_open + m.start():f.body_open + m.end()]).strip('.:( ')
-                edits.append((s, 0, 'assert(unwind_ok); // UNWIND-OBLIGATION before may-panic call %s //~ C10\n' % what))
-                log.rule('R-unwind', '%s: obligation before %s' % (f.key, what))
-            # mutation points
-            pos = f.body_open + 1
+                done.add(st)
+                edits.append((st, 0, 'assert(unwind_ok); // UNWIND-OBLIGATION before may-panic call %s //~ C10\n' % name))
+                log.rule('R-unwind', '%s: obligation before %s' % (f.key, name))
             mut_done = set()
             for lm in re.finditer(r'[^\n]*\n', msk[f.body_open + 1:f.body_close]):
                 ls = f.body_open + 1 + lm.start()
